@@ -98,7 +98,7 @@ Proof.
   { destruct (Nat.le_gt_cases p mu) as [L|L]; [exact L|]. specialize (Cc (p - 1)%nat ltac:(lia)). unfold b_start in Hx. fold k p in Hx. lra. }
   assert (Hl : length (insert_at k mu x) = S (length k)) by apply insert_at_length.
   assert (Hs : b_start (mkBasis p (insert_at k mu x) 0) = b_start b).
-  { unfold b_start. cbn [b_order b_knots]. fold k p. rewrite (kn_in _ (p - 1)%nat ltac:(lia) 0). rewrite nth_insert_at by exact A.
+  { unfold b_start. cbn [b_order b_knots]. fold k p. rewrite (kn_in (insert_at k mu x) (p - 1)%nat ltac:(lia) 0). rewrite nth_insert_at by exact A.
     destruct (Nat.ltb_spec (p - 1) mu); [|lia]. symmetry. apply kn_in. lia. }
   assert (He : b_end b <= b_end (mkBasis p (insert_at k mu x) 0)).
   { unfold b_end. cbn [b_order b_knots]. fold k p. rewrite Hl. rewrite (kn_in (insert_at k mu x) (S (length k) - p)%nat ltac:(lia) 0).
